@@ -123,6 +123,25 @@ Definition resolve (bpath : bytes) (bquery : option bytes) (r : uriref) : option
       end
   end.
 
+(* a canonical ("clean", C17) path: rooted, every element non-empty and neither
+   "." nor "..", except that the last one may be empty (trailing slash) when it
+   is not the only one *)
+Definition nonempty_b {A} (s : list A) : bool := match s with [] => false | _ => true end.
+Definition real_seg (s : bytes) : bool := negb (seg_dot s) && negb (seg_dotdot s) && nonempty_b s.
+
+Definition canonical_path (w : bytes) : bool :=
+  match w with
+  | c :: t =>
+      Ascii.eqb c "/" &&
+      match t with
+      | [] => true
+      | _ => let els := split_seg t [] in
+             forallb real_seg (removelast els) &&
+             (real_seg (last els []) || (negb (nonempty_b (last els [])) && nonempty_b (removelast els)))
+      end
+  | [] => false
+  end.
+
 (* the path a trailing-slash action leads to *)
 Definition slash_adjusted (w : bytes) : bytes :=
   match rev w with
